@@ -42,7 +42,7 @@ ASSUMPTIONS = (
 )
 EXPECTED_PROBES = ("replayed", "created", "expired-recreated", "invalidated-recreated", "cache-disabled-run", "dynamic-key",
                    "nested-cached-inside-cached", "recompiled", "body-raised", "backend-error", "cache-set-get",
-                   "two-templates-colliding-ids", "page-cached", "args-checked", "base-template-section-created")
+                   "two-templates-colliding-ids", "page-cached", "args-checked", "base-template-section-created", "module-template-twin")
 
 URIS = ["/a-b.html", "/a_b.html", "/a/b.html", "/c.html"]
 
@@ -107,8 +107,18 @@ def generate(rng, tier, idx, force=None):
     else:
         rng.shuffle(uris)
     tmpls = [gen_template(rng, uris[i], i) for i in range(nt)]
+    twins = False
+    if nt >= 2 and backend in ("simrec", "simrecctx", "beaker-memory") and rng.random() < 0.15:
+        # two "sites": the same template text and uri, generated into two differently named modules and
+        # wrapped as ModuleTemplate -- different templates, so they must not see each other's entries
+        import copy as _copy
+
+        tmpls[1] = _copy.deepcopy(tmpls[0])
+        tmpls[0]["modname"] = "siteA_tmpl"
+        tmpls[1]["modname"] = "siteB_tmpl"
+        twins = True
     base = None
-    if backend != "dogpile" and rng.random() < 0.35:
+    if backend != "dogpile" and not twins and rng.random() < 0.35:
         # a base template with a cached def; some templates inherit from it: its entry lives in the BASE
         # template's cache and is shared by all children
         base = {"timeout": rng.choice((None, None, 3))}
@@ -409,7 +419,7 @@ class Harness:
         ids = {}
         for ti, t in enumerate(self.tmpls):
             self.compile(ti)
-            mid = re.sub(r"\W", "_", t["uri"])
+            mid = t.get("modname") or re.sub(r"\W", "_", t["uri"])  # the cache id is the module name
             ids.setdefault(mid, []).append(ti)
         self.colliding = {ti: [o for o in grp if o != ti] for grp in ids.values() for ti in grp if len(grp) > 1}
         if trace.get("separate_dirs") and self.backend in ("beaker-file", "beaker-dbm"):
@@ -460,7 +470,18 @@ class Harness:
 
         t = self.tmpls[ti]
         text = emit_template(t, self.root, self.backend)
-        obj = mako.template.Template(text, uri=t["uri"], **self.template_kwargs(ti))
+        if t.get("modname"):
+            import types
+
+            kw = self.template_kwargs(ti)
+            kw.pop("lookup", None)
+            code = mako.template.Template(text, uri=t["uri"]).code
+            mod = types.ModuleType(t["modname"])
+            exec(compile(code, t["modname"], "exec"), mod.__dict__)
+            obj = mako.template.ModuleTemplate(mod, template_source=text, module_source=code, **kw)
+            self.probe("module-template-twin")
+        else:
+            obj = mako.template.Template(text, uri=t["uri"], **self.template_kwargs(ti))
         self.objs[ti] = obj
         self.used[ti] = False
         self.early.discard(ti)
